@@ -8,7 +8,8 @@
 (*   panic               the call panicked (D4);                                                                      *)
 (*   wrong-value         the result is admissible under none of the readings (locus = first node, walking down from   *)
 (*                       the root, at which it leaves the denotation: kind of the node, position, depth, what);       *)
-(*   inconsistent        admissible only under a reading an earlier call (`with`) has excluded;                        *)
+(*   inconsistent        admissible only under readings that earlier calls have excluded (`with` = the calls that      *)
+(*                       narrowed `alive`, at most three: together with this call they are the witness);              *)
 (*   not-in-place        no rule can apply to the provided map / slice, yet the result is another object or the       *)
 (*                       provided value does not show the conversions afterwards (D3);                                *)
 (*   original-modified   alt.Decompose ("a deep copy is returned leaving the original data unchanged") changed the    *)
@@ -22,7 +23,7 @@ N == Len(Trace)
 
 VARIABLES c, alive, pin, hits
 tvars == <<c, alive, pin, hits>>
-TraceInit == /\ c = 1 /\ alive = Readings /\ pin = 0 /\ hits = <<>>
+TraceInit == /\ c = 1 /\ alive = Readings /\ pin = <<>> /\ hits = <<>>
              /\ TLCSet(1, <<>>) /\ TLCSet(2, 0) /\ TLCSet(3, 0) /\ TLCSet(4, <<>>) /\ TLCSet(5, Readings)
 Bump(h, name) == IF name \in DOMAIN h THEN [h EXCEPT ![name] = @ + 1] ELSE h @@ (name :> 1)
 Push(b) == IF Len(TLCGet(1)) >= MaxBad THEN TLCSet(3, TLCGet(3) + 1) ELSE (TLCSet(1, Append(TLCGet(1), b)) /\ TLCSet(3, TLCGet(3) + 1))
@@ -41,17 +42,17 @@ TCall ==
          \* D3: only where no reading lets a rule touch the root
          inplace == IF r.api \in {"method", "func"} /\ (PlainArr(r.in) \/ PlainObj(r.in)) /\ ok # {}
                        /\ (\A rd \in ok : RootFree(C, r.facts, rd, r.in)) /\ ~(r.same /\ r.after = r.out)
-                    THEN <<Rec("not-in-place", rootk \o <<IF r.same THEN "after-differs" ELSE "other-object">>, 0)>> ELSE <<>>
+                    THEN <<Rec("not-in-place", rootk \o <<IF r.same THEN "after-differs" ELSE "other-object">>, <<>>)>> ELSE <<>>
          orig == IF r.api = "decompose" /\ r.panic = "" /\ r.after # r.in
-                 THEN <<Rec("original-modified", rootk \o <<"provided-value-changed">>, 0)>> ELSE <<>>
-         main == IF r.panic # "" THEN <<Rec("panic", rootk \o <<"panic">>, 0)>>
-                 ELSE IF ok = {} THEN <<Rec("wrong-value", IF loc = <<>> THEN rootk \o <<"other">> ELSE loc, 0)>>
+                 THEN <<Rec("original-modified", rootk \o <<"provided-value-changed">>, <<>>)>> ELSE <<>>
+         main == IF r.panic # "" THEN <<Rec("panic", rootk \o <<"panic">>, <<>>)>>
+                 ELSE IF ok = {} THEN <<Rec("wrong-value", IF loc = <<>> THEN rootk \o <<"other">> ELSE loc, <<>>)>>
                  ELSE IF narrowed = {} THEN <<Rec("inconsistent", rootk \o <<"reading">>, pin)>>
                  ELSE <<>>
      IN /\ PushAll(main \o inplace \o orig)
         /\ hits' = Bump(Bump(hits, r.conv \o "/" \o r.api), "node/" \o KindName(r.in))
         /\ IF r.panic = "" /\ ok # {} /\ narrowed # {} /\ narrowed # alive
-           THEN alive' = narrowed /\ pin' = c ELSE UNCHANGED <<alive, pin>>
+           THEN alive' = narrowed /\ pin' = Append(pin, c) ELSE UNCHANGED <<alive, pin>>
   /\ c' = c + 1 /\ TLCSet(2, c) /\ TLCSet(4, hits') /\ TLCSet(5, alive')
 
 TraceNext == TCall
